@@ -14,7 +14,9 @@ From Coq Require Import Reals.
 From QV.lib Require Import C20_NpReal.
 From QV.model Require Import C20_Model.
 From QV.proof Require Import C20_RLemmas C20_Proofs.
-From Gen20 Require Import Gen_Norm C20_GenProofs.
+From Gen20 Require Import Gen_Norm C20_GenProofs C20_GenProofs2.
+From Coq Require Import List.
+Import ListNotations.
 Local Open Scope R_scope.
 
 (* finite data are mapped into [0, 1] — for every stretch, all limits (ordered or not) *)
@@ -155,4 +157,134 @@ Proof.
   rewrite norm_unfold. simpl. rewrite linear_default_id, imap_proper by Lra.lra.
   unfold c_imap. replace ((2 - 1) / (5 - 1)) with (1 / 4) by (field; Lra.lra).
   apply clip01_id. Lra.lra.
+Qed.
+
+(* ================================================================ round-3 extension
+   (proofs: coq/gen_proofs/C20_GenProofs2.v) *)
+
+(* Every stretch object over the WHOLE real line, not only on [0, 1]: non-decreasing everywhere;
+   the clipping ones (all but `LinearStretch()` and `PowerLawStretch(1.0)`, which return their
+   argument untouched) factor through clip01, map R into [0, 1], saturate at 0 below 0 and at 1
+   above 1, and composed with the declared inverse — either way round — they are clip01, i.e.
+   the identity exactly on [0, 1]; the two short-cut ones and their inverses are the identity. *)
+Theorem C20_stretch_whole_line :
+  forall s, cfg_domain s ->
+    (forall x y, x <= y -> cfg_call s x <= cfg_call s y) /\
+    (cfg_clips s ->
+     forall x, 0 <= cfg_call s x <= 1 /\ cfg_call s x = cfg_call s (clip01 x) /\
+               (x <= 0 -> cfg_call s x = 0) /\ (1 <= x -> cfg_call s x = 1) /\
+               cfg_inverse_call s (cfg_call s x) = clip01 x /\
+               cfg_call s (cfg_inverse_call s x) = clip01 x) /\
+    (~ cfg_clips s ->
+     forall x, cfg_call s x = x /\ cfg_inverse_call s x = x).
+Proof. exact whole_line_lemma. Qed.
+Print Assumptions C20_stretch_whole_line.
+
+(* a general LinearStretch(slope, intercept) is non-decreasing on the whole line for every
+   slope >= 0 (slope 1 with and without intercept included); for a negative slope it is not *)
+Theorem C20_linear_general_monotone :
+  forall slope intercept, 0 <= slope -> forall x y, x <= y ->
+    LinearStretch_call slope intercept x <= LinearStretch_call slope intercept y.
+Proof. exact linear_general_mono. Qed.
+Print Assumptions C20_linear_general_monotone.
+
+Theorem C20_linear_negative_slope_refuted :
+  ~ (forall slope intercept x y, x <= y ->
+       LinearStretch_call slope intercept x <= LinearStretch_call slope intercept y).
+Proof. exact linear_negative_slope_refuted. Qed.
+Print Assumptions C20_linear_negative_slope_refuted.
+
+(* the boundary of the parameter domain: power = 0 is rejected by PowerLawStretch's constructor
+   and must be — the stretch would be constant on (0, 1], so NO function inverts it *)
+Theorem C20_power_zero_not_invertible :
+  ~ PowerLawStretch_domain 0 /\
+  ~ (exists g : R -> R, forall x, 0 <= x <= 1 -> g (PowerLawStretch_call 0 x) = x).
+Proof. exact power_zero_not_invertible. Qed.
+Print Assumptions C20_power_zero_not_invertible.
+
+(* THE FULL PIPELINE as one statement.  pipeline s vmin vmax = masked_invalid o stretch o
+   interval map on extended values Fin x | NaN | +inf | -inf (the polymorphic executable model of
+   model/C20_Model.v at the reals, with the TRANSLATED stretch), x_le the order of the extended
+   line with NaN incomparable.  For every stretch in its constructor's domain and vmin <= vmax:
+   NaN in <-> NaN out <-> masked; every other input — finite or infinite — yields a number in
+   [0, 1]; the map is non-decreasing along the whole extended line; on finite data it is the
+   translated real-valued normalisation; -inf -> 0, +inf -> 1; and for vmin < vmax the limits
+   go to 0 and 1. *)
+Theorem C20_pipeline_extended :
+  forall s vmin vmax,
+    cfg_domain s -> vmin <= vmax ->
+    (forall v, (pipeline s vmin vmax v = XNaN <-> v = XNaN) /\
+               (x_masked (pipeline s vmin vmax v) = true <-> v = XNaN) /\
+               (v <> XNaN -> exists y, pipeline s vmin vmax v = Fin y /\ 0 <= y <= 1)) /\
+    (forall v w y z, x_le v w ->
+       pipeline s vmin vmax v = Fin y -> pipeline s vmin vmax w = Fin z -> y <= z) /\
+    (forall x, pipeline s vmin vmax (Fin x) = Fin (norm s vmin vmax x)) /\
+    pipeline s vmin vmax NInf = Fin 0 /\ pipeline s vmin vmax PInf = Fin 1 /\
+    (vmin < vmax -> pipeline s vmin vmax (Fin vmin) = Fin 0 /\ pipeline s vmin vmax (Fin vmax) = Fin 1).
+Proof. exact pipeline_extended_lemma. Qed.
+Print Assumptions C20_pipeline_extended.
+
+(* The property as its text reads, limits computed FROM THE DATA: for every list of extended
+   reals with at least two distinct finite entries and every stretch, the min/max interval
+   (`ManualInterval()`; presets minmax, linear_minmax, log_minmax) yields limits vmin < vmax that
+   are entries of the data, and on the data: masked <-> NaN, every other entry lands in [0, 1],
+   the map is non-decreasing, vmin -> 0, vmax -> 1. *)
+Theorem C20_pipeline_minmax_from_data :
+  forall s data,
+    cfg_domain s ->
+    (exists a b, In (Fin a) data /\ In (Fin b) data /\ a <> b) ->
+    exists dmin dmax,
+      data_minmax Rcarrier data = Some (dmin, dmax) /\
+      let '(vmin, vmax) := ManualInterval_get_limits None None dmin dmax in
+      vmin < vmax /\ In (Fin vmin) data /\ In (Fin vmax) data /\
+      pipeline_on_data s vmin vmax data.
+Proof. exact pipeline_minmax_lemma. Qed.
+Print Assumptions C20_pipeline_minmax_from_data.
+
+(* same for the centred interval with the half-range taken from the data (presets
+   linear_centered, asinh_centered): limits symmetric about vcenter, strictly ordered, covering
+   every finite entry *)
+Theorem C20_pipeline_centered_from_data :
+  forall s c data,
+    cfg_domain s ->
+    (exists a b, In (Fin a) data /\ In (Fin b) data /\ a <> b) ->
+    exists dmin dmax,
+      data_minmax Rcarrier data = Some (dmin, dmax) /\
+      let '(vmin, vmax) := CenteredInterval_get_limits c None dmin dmax in
+      vmin < vmax /\ vmin + vmax = 2 * c /\
+      (forall x, In (Fin x) data -> vmin <= x <= vmax) /\
+      (forall v, In v data ->
+         (x_masked (pipeline s vmin vmax v) = true <-> v = XNaN) /\
+         (v <> XNaN -> exists y, pipeline s vmin vmax v = Fin y /\ 0 <= y <= 1)) /\
+      (forall v w y z, In v data -> In w data -> x_le v w ->
+         pipeline s vmin vmax v = Fin y -> pipeline s vmin vmax w = Fin z -> y <= z) /\
+      pipeline s vmin vmax (Fin vmin) = Fin 0 /\ pipeline s vmin vmax (Fin vmax) = Fin 1.
+Proof. exact pipeline_centered_lemma. Qed.
+Print Assumptions C20_pipeline_centered_from_data.
+
+(* ---------------------------------------------------------------- non-vacuity (round 3) *)
+(* both kinds of stretch exist; the boundary parameter p = 1 (identity short-cut) is a
+   legitimate member of the domain and its inverse pair is the identity *)
+Example C20_nonvacuous_clips :
+  cfg_domain (SPower 2) /\ cfg_clips (SPower 2) /\ cfg_domain (SPower 1) /\ ~ cfg_clips (SPower 1) /\
+  cfg_domain SLinearDefault /\ ~ cfg_clips SLinearDefault /\ cfg_clips (SLog 1000) /\
+  cfg_inverse_call (SPower 1) (cfg_call (SPower 1) (1 / 2)) = 1 / 2.
+Proof.
+  cbv beta iota delta [cfg_domain cfg_clips PowerLawStretch_domain LinearStretch_default_domain
+                       LinearStretch_domain].
+  repeat split; try exact I; try Lra.lra; try (intros H; apply H; reflexivity); try tauto.
+  destruct (whole_line_lemma (SPower 1)) as [_ [_ H]].
+  - cbv beta iota delta [cfg_domain PowerLawStretch_domain]. Lra.lra.
+  - assert (Hn : ~ cfg_clips (SPower 1)) by (simpl; intros H1; apply H1; reflexivity).
+    destruct (H Hn (1 / 2)) as [E1 _]. rewrite E1. apply (H Hn (1 / 2)).
+Qed.
+
+(* the order of the extended line and a data set with two distinct finite entries next to
+   NaN and both infinities *)
+Example C20_nonvacuous_pipeline :
+  x_le NInf (Fin 0) /\ x_le (Fin 0) (Fin 1) /\ x_le (Fin 1) PInf /\ ~ x_le XNaN XNaN /\ ~ x_le PInf (Fin 0) /\
+  (exists a b, In (Fin a) [Fin 1; XNaN; PInf; Fin 3; NInf] /\ In (Fin b) [Fin 1; XNaN; PInf; Fin 3; NInf] /\ a <> b).
+Proof.
+  simpl. repeat split; try Lra.lra; try tauto.
+  exists 1, 3. repeat split; [tauto | tauto | Lra.lra].
 Qed.
